@@ -449,6 +449,8 @@ class IdentityOperator(AbstractLinearOperator):
     def __matmul__(self, other: Any) -> AbstractLinearOperator:
         if not isinstance(other, AbstractLinearOperator):
             return NotImplemented
+        if self.in_structure() != other.out_structure():
+            raise ValueError('Incompatible linear operator structures')
         return other
 
     def mv(self, x: PyTree[Inexact[Array, '...']]) -> PyTree[Inexact[Array, '...']]:
@@ -468,6 +470,8 @@ class HomothetyOperator(AbstractLinearOperator):
 
     def __matmul__(self, other: Any) -> AbstractLinearOperator:
         if isinstance(other, HomothetyOperator):
+            if self.in_structure() != other.out_structure():
+                raise ValueError('Incompatible linear operator structures')
             return HomothetyOperator(self.value * other.value, self._in_structure)
         return super().__matmul__(other)
 
